@@ -26,11 +26,13 @@ pub struct TriviaCfg {
     pub config_pairs_same_line: bool,
     /// finding feature: a block comment directly in front of a statement on the same line
     pub comment_before_statement_same_line: bool,
+    /// `label: instruction` on one line (a finding feature for the formatter checks)
+    pub label_and_instruction_on_one_line: bool,
 }
 
 impl TriviaCfg {
     pub fn clean() -> TriviaCfg {
-        TriviaCfg { vary: 35, comments: true, case_flips: true, crlf: true, multiline_block_comment: false, empty_line_comment: false, uppercase_true: false, non_ascii: false, no_comment_slots: vec![], only_comment_slots: vec![], serial_comments: false, config_pairs_same_line: false, comment_before_statement_same_line: true }
+        TriviaCfg { vary: 35, comments: true, case_flips: true, crlf: true, multiline_block_comment: false, empty_line_comment: false, uppercase_true: false, non_ascii: false, no_comment_slots: vec![], only_comment_slots: vec![], serial_comments: false, config_pairs_same_line: false, comment_before_statement_same_line: true, label_and_instruction_on_one_line: true }
     }
 }
 
@@ -239,7 +241,7 @@ impl<'e> Filler for RandFiller<'e> {
         }
         self.slots_changed += 1;
         let s = self.fill_kind(kind);
-        if matches!(id, "stmt-sep" | "file-start" | "block-open") {
+        if matches!(id, "stmt-sep" | "label-sep" | "stmt-sep-after-implied" | "file-start" | "block-open") {
             let tail = s.rsplit('\n').next().unwrap_or("");
             if tail.contains("/*") {
                 if self.cfg.comment_before_statement_same_line {
@@ -280,6 +282,20 @@ impl<'e> RandFiller<'e> {
                 }
             }
             SlotKind::StmtSep => self.multi(true),
+            SlotKind::LabelSep => {
+                let p = if self.cur_slot == "label-sep" { 2 } else { 5 };
+                if self.cfg.label_and_instruction_on_one_line && self.e.chance(1, p) {
+                    self.features.insert("label_and_instruction_on_one_line".into());
+                    let s = self.single(true);
+                    if s.is_empty() {
+                        " ".to_string()
+                    } else {
+                        s
+                    }
+                } else {
+                    self.multi(true)
+                }
+            }
             SlotKind::Edge => {
                 if self.e.chance(1, 2) {
                     String::new()
